@@ -327,6 +327,9 @@ def static_events(case, t, k, sim, rng, want, build_opts=None, solve_opts=None, 
         import traceback
         bev["raised"] = type(exc).__name__ + ": " + traceback.format_exc()[-300:]
         evs.append(bev)
+        if phys is not None:
+            o["model_cell_of_desc"] = [perm[i] if perm else i for i in range(len(desc_cells))]
+            evs.append(phys_event(case, phys[0], t, o, frame, forsys, vidx, phys[1], raised="build " + bev["raised"]))
         return evs
     evs.append(bev)
     if solve_opts.get("skip"):
@@ -365,7 +368,7 @@ def static_events(case, t, k, sim, rng, want, build_opts=None, solve_opts=None, 
         evs += pressure_events(case, forsys, frame, t, o, vidx, cidx, cell_of_model, rng, resample, lin=phys is None)
     if phys is not None:
         o["model_cell_of_desc"] = [perm[i] if perm else i for i in range(len(desc_cells))]
-        evs.append(phys_event(case, phys[0], t, o, frame, forsys, vidx, phys[1]))
+        evs.append(phys_event(case, phys[0], t, o, frame, forsys, vidx, phys[1], raised=("solve " + sev["raised"]) if sev["raised"] else ""))
     return evs
 
 
@@ -715,6 +718,10 @@ def dynamic_events(case, spec, rng, units=(1.0, 1.0), phys_run=None):
         import traceback
         bev["raised"] = type(exc).__name__ + ": " + traceback.format_exc()[-300:]
         evs.append(bev)
+        if phys_run is not None:
+            o["model_cell_of_desc"] = list(range(len(o["desc"]["C"])))
+            g = {"rot": [[fx(sim.rot[0][0]), fx(sim.rot[0][1])], [fx(sim.rot[1][0]), fx(sim.rot[1][1])]], "kind": "units"}
+            evs.append(phys_event(case, phys_run, t, o, frame, forsys, vidx, g, when=tau, raised="build " + bev["raised"]))
         return evs
     evs.append(bev)
     method = spec.get("solve", {}).get("method", "default")
@@ -744,14 +751,15 @@ def dynamic_events(case, spec, rng, units=(1.0, 1.0), phys_run=None):
     if phys_run is not None:
         o["model_cell_of_desc"] = list(range(len(o["desc"]["C"])))
         g = {"rot": [[fx(sim.rot[0][0]), fx(sim.rot[0][1])], [fx(sim.rot[1][0]), fx(sim.rot[1][1])]], "kind": "units"}
-        evs.append(phys_event(case, phys_run, t, o, frame, forsys, vidx, g, when=tau))
+        evs.append(phys_event(case, phys_run, t, o, frame, forsys, vidx, g, when=tau,
+                              raised=("solve " + sev["raised"]) if sev["raised"] else ""))
     return evs
 
 
 # ------------------------------------------------------------------------------------------------
 # two-run equivariance cases (C06: similarity / units, C07: labels / storage order / orientation)
 # ------------------------------------------------------------------------------------------------
-def phys_event(case, run, t, o, frame, forsys, vidx, g, when=0):
+def phys_event(case, run, t, o, frame, forsys, vidx, g, when=0, raised=""):
     """results keyed by PHYSICAL identity (junction-level vertex ids of the tissue, model cell index), obtained by
     undoing the known relabelling of this run (projection, no judgement)"""
     info = o["info"]
@@ -795,7 +803,10 @@ def phys_event(case, run, t, o, frame, forsys, vidx, g, when=0):
         if cell is not None and cell.pressure is not None and math.isfinite(float(cell.pressure)):
             pres.append([o["model_cell_of_desc"][pos_in_desc] + 1, fx(float(cell.pressure))])
     return {"case": case, "ev": "Phys", "run": run, "g": g, "tens": tens, "coefs": coefs, "junctions": sorted(junctions),
-            "internal": sorted(q_of(be) for be in internal), "pres": pres}
+            "internal": sorted(q_of(be) for be in internal), "pres": pres,
+            # a build / solve of this run that raised: the run is logged all the same (a transformation after which the
+            # analysis raises has not left the results unchanged)
+            "raised": str(raised)[:80]}
 
 
 def pair_events(case, spec, rng):
